@@ -21,7 +21,14 @@
     inserts them in REVERSE order; the Spec is defined as what the code does.
   * int↔decimal mixing of an element argument: put/insert/set@ convert at run time (decimal → integer
     by truncation, integer → nearest double), concat refuses at compile time when the types are
-    known: `either`.
+    known: `either`. The same holds for a typed NULL of the other numeric type (`num()` given for an
+    integer table / item, `int()` for a decimal one): the manual only says that a null element "must be
+    typed" (tab, tup, set@) and that the argument is "of the same type or of the sequenced subtype"
+    (concat); it neither promises nor forbids the conversion of a null. So the Spec accepts it exactly as
+    it accepts the non-null conversion — the null of the ELEMENT type is stored, or the call is refused
+    (`fit`: `.conv (.null Ty.int)` / `.conv (.null Ty.num)` → `either`) — and only for an element type of
+    level 0: for a table of tables it is a type error (`reject type`; the code stores a level-0 null
+    there: finding C09.mix.level).
   * a null table / null tuple / (strings, bytes:) any null given to insert or concat: the code returns
     the receiver unchanged without an error, or refuses at compile time: `either` (the container is
     unchanged in both cases).
